@@ -565,3 +565,35 @@ func (w *World) RelayMsg(relayer, key int, send *banktypes.MsgSend) sdk.Msg {
 	}
 	return ethereumtypes.NewMsgRelay(w.addrs[relayer], hex.EncodeToString(bz))
 }
+
+// RestartFromExport: the application state is exported (ExportAppStateAndValidators) and a NEW chain is initialised from
+// it on an empty database (a hard-fork style restart). Keys and addresses of the harness survive; the consensus set is
+// what InitChain hands to the engine. Returns nil and the reason when export or InitChain fail.
+func (w *World) RestartFromExport() (nw *World, exportedVals int, failed interface{}) {
+	defer func() {
+		if e := recover(); e != nil {
+			nw, failed = nil, e
+		}
+	}()
+	exp, err := w.app.ExportAppStateAndValidators(false, nil)
+	if err != nil {
+		return nil, 0, err
+	}
+	nw = &World{enc: w.enc, height: 0, now: w.now, t0: w.t0, db: dbm.NewMemDB(), privs: w.privs, addrs: w.addrs}
+	app := simapp.NewInitApp(log.NewNopLogger(), nw.db, nil, true, map[int64]bool{}, simapp.DefaultNodeHome, 5, nw.enc, simtestutil.EmptyAppOptions{}, bam.SetChainID(chainID))
+	nw.app = app
+	res := app.InitChain(abci.RequestInitChain{ChainId: chainID, Time: nw.now, ConsensusParams: simtestutil.DefaultConsensusParams, AppStateBytes: exp.AppState, InitialHeight: 1})
+	var tmVals []*tmtypes.Validator
+	for _, u := range res.Validators {
+		pk, _ := cryptoenc.PubKeyFromProto(u.PubKey)
+		tmVals = append(tmVals, tmtypes.NewValidator(pk, u.Power))
+	}
+	if len(tmVals) > 0 {
+		nw.valSet = tmtypes.NewValidatorSet(tmVals)
+	} else {
+		nw.valSet = &tmtypes.ValidatorSet{}
+	}
+	nw.delay = w.delay
+	nw.setAt = map[int64]*tmtypes.ValidatorSet{1: nw.valSet}
+	return nw, len(exp.Validators), nil
+}
